@@ -7,7 +7,7 @@
    about Model/Result.v's [run_request], the executable model of pkg/adaptation/result.go that the
    correspondence check runs against the real code on every invocation. *)
 From Coq Require Import String List Bool ZArith.
-From NRI Require Import Model.Types Model.Result Spec.AbsLedger Proofs.LedgerProofs Proofs.RefineLedger.
+From NRI Require Import Model.Types Model.Result Spec.AbsLedger Proofs.LedgerProofs Proofs.RefineLedger Proofs.LedgerOrder.
 Import ListNotations.
 
 (* (1) The abstract ledger: if a group claims a key, a later group claims the same key, neither is an
@@ -70,6 +70,17 @@ Theorem C01_adjust_refines_group :
     end.
 Proof. exact adjust_ledger. Qed.
 Print Assumptions C01_adjust_refines_group.
+
+(* (4) "every internal iteration order": the annotation map of an adjustment and the unified map of any
+   resources may be iterated in ANY order (Go's map iteration is random): the request fails or succeeds all
+   the same — provided no update is marked ignore-failure (what a dropped update leaves behind depends on
+   where it failed: interpretation I2) *)
+Theorem C01_map_order_independent :
+  forall rq rps rps',
+    Forall wf_rp rps -> Forall2 resp_perm rps rps' -> no_ignore rps ->
+    ((exists e, snd (run_request rq rps) = Err e) <-> (exists e, snd (run_request rq rps') = Err e)).
+Proof. exact verdict_map_order_independent. Qed.
+Print Assumptions C01_map_order_independent.
 
 (* non-vacuity: two plugins both setting annotation "k" of container "c": an abstract conflict, the
    hypotheses of (2) hold, and the model fails *)
